@@ -69,7 +69,11 @@ ReplicaSweepOK(s) ==
   /\ Calls(E.rl) = ReplicaListCalls
   /\ \A i \in DOMAIN E.rl :
        LET x == SL(s, E.rl[i][1], E.rl[i][2])
-       IN ToSet(E.rl[i][3]) = x /\ Len(E.rl[i][3]) = Cardinality(x)
+       \* (the dependency map keeps one edge per dep_ key: a task named by two spellings of
+       \* its uuid appears twice)
+       IN ToSet(E.rl[i][3]) = x
+          /\ IF E.rl[i][1] \in {"dm.dependencies", "dmf.dependencies", "dm.dependents", "dmf.dependents"}
+             THEN Len(E.rl[i][3]) >= Cardinality(x) ELSE Len(E.rl[i][3]) = Cardinality(x)
 
 -----------------------------------------------------------------------------
 TReset == IsEvent("Reset") /\ Reset
